@@ -465,7 +465,7 @@ func applyMutation(sc *scenario, ad *schema.Advertisement) bool {
 	case "provider":
 		switch m.Index % 3 {
 		case 0:
-			ad.Provider = pool.Ids[(sc.Provider+1+(m.Index/3)%(len(pool.Ids)-1))%len(pool.Ids)].ID.String()
+			ad.Provider = pool.Ids[(sc.Provider+1+(m.Index/3)%(nSmall-1))%nSmall].ID.String()
 		case 1:
 			ad.Provider = flipString(ad.Provider, 5+m.Index)
 		default:
@@ -524,8 +524,8 @@ func applyMutation(sc *scenario, ad *schema.Advertisement) bool {
 		p := &ad.ExtendedProvider.Providers[m.Ep]
 		if m.Index%2 == 0 {
 			// another identity of the pool that is not already this entry's
-			for d := 1; d < len(pool.Ids); d++ {
-				id := pool.Ids[(sc.Eps[m.Ep].Named+d)%len(pool.Ids)].ID.String()
+			for d := 1; d < nSmall; d++ {
+				id := pool.Ids[(sc.Eps[m.Ep].Named+d)%nSmall].ID.String()
 				if id != p.ID {
 					p.ID = id
 					break
@@ -597,6 +597,32 @@ func applyMutation(sc *scenario, ad *schema.Advertisement) bool {
 			}
 			p.Addresses = append([]string{}, ad.Addresses...)
 		}
+	// ---- repeated IDs in the entry list: every entry is checked, repeats included
+	case "ep-id-earlier": // an entry's ID rewritten to the ID of an earlier entry after signing
+		if !epOK || m.Ep == 0 {
+			return false
+		}
+		ps := ad.ExtendedProvider.Providers
+		earlier := ps[m.Index%m.Ep].ID
+		if earlier == ps[m.Ep].ID {
+			return false
+		}
+		ps[m.Ep].ID = earlier
+	case "ep-dup-garbage": // a second entry for an ID already listed: arbitrary values, a signature nobody made
+		if !epOK {
+			return false
+		}
+		src := ad.ExtendedProvider.Providers[m.Ep]
+		dup := schema.Provider{ID: src.ID, Addresses: []string{mkAddr(r), mkAddr(r)}, Metadata: r.Bytes(7)}
+		switch m.Index % 3 {
+		case 0:
+			dup.Signature = r.Bytes(90)
+		case 1:
+			dup.Signature = nil
+		default:
+			dup.Signature = append([]byte{}, src.Signature...) // the first copy's genuine signature over other values
+		}
+		ad.ExtendedProvider.Providers = append(ad.ExtendedProvider.Providers, dup)
 	// ---- structure
 	case "ep-attach":
 		// An extended-provider list is attached to the SIGNED advertisement (its own
@@ -710,8 +736,8 @@ func applyMutation(sc *scenario, ad *schema.Advertisement) bool {
 			case "env-key":
 				// the key of another pool identity (other than the one inside)
 				cur, _ := crypto.PublicKeyFromProto(e.PublicKey)
-				for d := 0; d < len(pool.Ids); d++ {
-					c := pool.Ids[(m.Index+d)%len(pool.Ids)]
+				for d := 0; d < nSmall; d++ {
+					c := pool.Ids[(m.Index+d)%nSmall]
 					if !c.Pub.Equals(cur) {
 						e.PublicKey = pubProto(c.Index)
 						return
@@ -775,7 +801,7 @@ func applyMutation(sc *scenario, ad *schema.Advertisement) bool {
 		s := sigOf(ad, m.Ep)
 		*s = append(append([]byte{}, (*s)...), byte(m.Index))
 	case "resign-other": // the ad envelope replaced by a genuine one from another key
-		k := pool.Ids[m.Index%len(pool.Ids)]
+		k := pool.Ids[m.Index%nSmall]
 		raw := mirrorAdRaw(ad)
 		pl, _ := multihash.Sum(raw, multihash.SHA2_256, -1)
 		ad.Signature = sealRaw(adCodec, pl, k.Priv)
